@@ -156,10 +156,17 @@ func (m *Model) Check(lines []string) (*Disagreement, error) {
 // (steps that satisfied Ord.stepOk, steps outside the theorem's hypotheses, steps on which only the
 // clock assumption failed).
 func (m *Model) OrdStats() (checked, excluded, stamps int) {
+	checked, excluded, stamps, _, _ = m.OrdFragStats()
+	return
+}
+
+// OrdFragStats: as OrdStats, plus how many steps of the last replayed history lie inside / outside the
+// fragment of the operations on which C05 is proved outright (`C05_fragment`)
+func (m *Model) OrdFragStats() (checked, excluded, stamps, fragIn, fragOut int) {
 	outs, err := m.Replay([]string{"ordstats"})
 	if err != nil || len(outs) != 1 {
 		return
 	}
-	fmt.Sscanf(outs[0], "R checked=%d excluded=%d stamps=%d", &checked, &excluded, &stamps)
+	fmt.Sscanf(outs[0], "R checked=%d excluded=%d stamps=%d fragin=%d fragout=%d", &checked, &excluded, &stamps, &fragIn, &fragOut)
 	return
 }
